@@ -11,6 +11,8 @@ import (
 	"fmt"
 	"io"
 	"os"
+	"regexp"
+	"strconv"
 	"sync"
 	"time"
 
@@ -271,9 +273,32 @@ func runNet(sc netScenario, emit func(hv.Case)) {
 				d.name, elapsed.Round(time.Millisecond), clean, res.got, res.want, res.eof, a.Out().Sent.Load(), a.Out().Dropped.Load(), b.Out().Sent.Load(), b.Out().Dropped.Load(),
 				tubes.VerifTubeDebug(tA), tubes.VerifTubeDebug(tB))
 		}
+		if !res.ok && (res.sig == "C08:stream-incomplete-after-recovery" || res.sig == "C08:eof-before-all-bytes") {
+			// docs/C08.md item 4: a sender that has counted more than 100 duplicate acknowledgements in a row makes
+			// recvAck fail for ever and the tube tears itself down (errTooManyDuplicateACKs).  That specific
+			// site gets its own signature (open finding); every other truncation keeps the general one.
+			dA, dB := tubes.VerifTubeDebug(tA), tubes.VerifTubeDebug(tB)
+			if dupOver100(dA) || dupOver100(dB) {
+				res.sig = "C08:tube-closed-by-duplicate-ack-limit"
+				res.what = fmt.Sprintf("%s: reader has %d of %d written bytes, eof=%v; datagrams sent A->B %d (dropped %d), B->A %d (dropped %d); a sender counted > 100 duplicate acknowledgements and the tube closed itself; opener tube: %s; acceptor tube: %s",
+					d.name, res.got, res.want, res.eof, a.Out().Sent.Load(), a.Out().Dropped.Load(), b.Out().Sent.Load(), b.Out().Dropped.Load(), dA, dB)
+			}
+		}
 		emit(hv.Case{Class: "net-" + sc.class, Desc: desc + " dir=" + d.name + note, Spec: res.ok, Sig: res.sig, What: res.what,
 			NT: sc.loss > 0 || sc.dup > 0 || sc.dupEvery > 0 || sc.jitterMs > 0 || sc.outLen > 0, Key: fmt.Sprintf("%s|%d|%s", sc.class, sc.seed, d.name)})
 	}
+}
+
+var dupRe = regexp.MustCompile(`dup=(\d+)`)
+
+// dupOver100 reads the sender's duplicatedAckCounter out of VerifTubeDebug's text.
+func dupOver100(debug string) bool {
+	m := dupRe.FindStringSubmatch(debug)
+	if m == nil {
+		return false
+	}
+	n, err := strconv.Atoi(m[1])
+	return err == nil && n > 100
 }
 
 func summarize(s []int) string {
